@@ -23,8 +23,8 @@ Extraction "Extract/model.ml"
   Events.phen_is_national Events.phen_is_weather Events.phen_brief Events.sig_as_u8 Events.sig_name
   Events.sig_display_str Events.sig_code_str Events.sig_from
   Events.originator_from_org_and_call Events.is_national
-  Framer.framer_input Framer.framer_end Framer.framer_state Framer.message_prefix_errors
+  Framer.framer_input Framer.framer_end Framer.framer_state Framer.message_prefix_errors_u32
   Squelch.sq_input Squelch.sq_init Squelch.sq_end Squelch.sq_set_lock
   Assembler.asm_init Assembler.asm_assemble Assembler.asm_idle
   Receiver.rx_init Receiver.step_item Receiver.uses_eq Receiver.skip Receiver.pop_event
-  Receiver.process Receiver.run_all.
+  Receiver.process Receiver.run_core.
